@@ -316,7 +316,7 @@ func ImportSessionInfoAttributes(sessionInfo string) (map[string]string, error) 
 		attrValue := strings.TrimSpace(item[eqPos+1:])
 
 		// Remove quotes from string values
-		if strings.HasPrefix(attrValue, "\"") && strings.HasSuffix(attrValue, "\"") {
+		if len(attrValue) >= 2 && strings.HasPrefix(attrValue, "\"") && strings.HasSuffix(attrValue, "\"") {
 			attrValue = attrValue[1 : len(attrValue)-1]
 		}
 
